@@ -69,3 +69,70 @@ package control
 //@     invariant badRule <==> (exists e int {condHolds(e)} {outb(e)} :: rs($idx) <= e && e < $idx && !isOr(e) && !condHolds(e))
 //@     invariant must <==> (exists u int {ruleHolds(u)} {outb(u)} :: 0 <= u && u < $idx && isTail(u) && outb(u) == consts.OutboundMustRules && ruleHolds(u))
 //@     invariant forall u int {ruleHolds(u)} :: 0 <= u && u < $idx && isTail(u) && outb(u) != consts.OutboundMustRules ==> !ruleHolds(u)
+
+// ---------------------------------------------------------------------------------------------
+// C08: DNS cache entry time arithmetic.
+//
+//   packTTL(b)   ghost attribute of packed response bytes: the TTL written into its RR headers
+//   wfPacked(c)  entry invariant: the packed bytes carry packedResponseTTL, which was computed at
+//                packedResponseCreatedAt from the entry's real deadline
+
+//@ specfn packTTL(b []byte) int
+
+//@ macro dl(c *DnsCache) = c.deadlineNano.Load()
+//@ macro hasPacked(c *DnsCache) = c.packedResponse.Load() != nil && deref(c.packedResponse.Load()) != nil
+//@ macro packedOf(c *DnsCache) = deref(c.packedResponse.Load())
+//@ macro ttlAt(d int, t int) = (d - t) / 1000000000 < 1 ? 1 : (d - t) / 1000000000
+//@ macro wfPacked(c *DnsCache) = hasPacked(c) ==> (packTTL(packedOf(c)) == c.packedResponseTTL.Load() \
+//@        && c.packedResponseTTL.Load() <= ttlAt(dl(c), c.packedResponseCreatedAt.Load()))
+//@ macro timeSane(t int) = 0 <= t && t < 4000000000000000000
+
+//@ func (*DnsCache).GetStaleResponse
+//@   requires timeSane(now.UnixNano()) && timeSane(dl(c)) && 0 <= staleTtl && staleTtl < 4000000000
+//@   ensures result != nil ==> hasPacked(c) && result == packedOf(c)
+//@   ensures result != nil ==> dl(c) <= now.UnixNano()
+//@   ensures result != nil && staleTtl > 0 ==> now.UnixNano() <= dl(c) + staleTtl * 1000000000
+//@   ensures hasPacked(c) && dl(c) <= now.UnixNano() && (staleTtl == 0 || now.UnixNano() <= dl(c) + staleTtl * 1000000000) ==> result != nil
+//@   ensures dl(c) == old(dl(c))
+
+//@ func (*DnsCache).prepackResponseWithTTL
+//@   trusted
+//@   modifies c.packedResponse, c.packedResponseTTL, c.packedResponseCreatedAt
+//@   ensures err == nil ==> hasPacked(c) && c.packedResponseTTL.Load() == ttl && c.packedResponseCreatedAt.Load() == now.UnixNano()
+//@   ensures err != nil ==> c.packedResponse.Load() == old(c.packedResponse.Load()) && c.packedResponseTTL.Load() == old(c.packedResponseTTL.Load()) && c.packedResponseCreatedAt.Load() == old(c.packedResponseCreatedAt.Load())
+//@   assumed-ensures err == nil ==> packTTL(packedOf(c)) == ttl
+//@   assumed-ensures err == nil   // re-packing an answer that was packed when it was cached does not fail (miekg/dns)
+
+//@ func (*DnsCache).GetPackedResponseWithApproximateTTL
+//@   modifies c.packedResponse, c.packedResponseTTL, c.packedResponseCreatedAt
+//@   requires timeSane(now.UnixNano()) && timeSane(dl(c)) && timeSane(c.packedResponseCreatedAt.Load())
+//@   requires wfPacked(c)
+//@   ensures result != nil ==> dl(c) > now.UnixNano()
+//@   ensures result != nil ==> hasPacked(c) && result == packedOf(c)
+//@   ensures result != nil ==> packTTL(result) * 1000000000 <= (dl(c) - now.UnixNano()) + 16000000000
+//@   ensures dl(c) == old(dl(c))
+//@   ensures wfPacked(c)
+
+//@ func ttlScratchSlice
+//@   requires n >= 0 && stack != nil
+//@   ensures len(result) == n
+//@   ensures result.$base == stack || fresh(result)
+
+//@ func setSectionTTL
+//@   requires len(scratch) >= len(rrs)
+//@   modifies elems(scratch), allof(dnsmessage.RR_Header.Ttl)
+
+//@ func restoreSectionTTL
+//@   requires len(scratch) >= len(rrs)
+//@   modifies allof(dnsmessage.RR_Header.Ttl)
+
+//@ func (*DnsCache).prepackResponseBeforeStore$1
+//@   requires c != nil && len(extraTTLs) >= len(c.Extra) && len(nsTTLs) >= len(c.NS) && len(answerTTLs) >= len(c.Answer)
+//@   modifies allof(dnsmessage.RR_Header.Ttl)
+
+// The entry invariant of C08: the cached deadline in nanoseconds equals the entry's real deadline
+// on every path out of the production insert helper (defect F3 when it does not).
+//@ func (*DnsCache).prepackResponseBeforeStore
+//@   modifies c.packedResponse, c.packedResponseTTL, c.packedResponseCreatedAt, c.deadlineNano, allof(dnsmessage.RR_Header.Ttl)
+//@   ensures dl(c) == c.Deadline.UnixNano()
+//@   ensures err == nil ==> hasPacked(c) && c.packedResponseTTL.Load() == ttl && c.packedResponseCreatedAt.Load() == now.UnixNano()
